@@ -144,7 +144,7 @@ PROPS["C08"] = {
         "pkg": "curve", "configs": ["default"],
         "tests": {"TestC08GuardPages": LIST(), "TestC08GuardPagesOracleSelfTest": LIST()},
     }, {
-        "pkg": "internal/zzc08", "configs": ["default"],
+        "pkg": "internal/zzc08", "configs": ["default"], "always_build": True,
         "tests": {"TestC08AsmWorker": LIST()},
     }, {
         "pkg": "internal/zzcttest", "ct": True, "configs": {"quick": ["default", "purego", "force32bit"], "thorough": ["default", "noavx2", "purego", "force32bit"]},
